@@ -78,13 +78,16 @@ func ContextStopped() context.Context {
 func New() *OrderedDaemon {
 	stoppedCtx, stoppedCtxCancel := context.WithCancel(context.Background())
 
-	return &OrderedDaemon{
+	d := &OrderedDaemon{
 		stoppedCtx:             stoppedCtx,
 		stoppedCtxCancel:       stoppedCtxCancel,
 		workers:                make(map[string]*worker),
 		shutdownOrderWorker:    make([]string, 0),
 		wgPerSameShutdownOrder: make(map[int]*sync.WaitGroup),
 	}
+	d.workersDone = sync.NewCond(&d.lock)
+
+	return d
 }
 
 // OrderedDaemon is an orchestrator for background workers.
@@ -98,8 +101,12 @@ type OrderedDaemon struct {
 	workers                map[string]*worker
 	shutdownOrderWorker    []string
 	wgPerSameShutdownOrder map[int]*sync.WaitGroup
-	lock                   syncutils.RWMutex
-	logger                 log.Logger
+	// runningWorkers counts the started workers that have not been cleaned up yet (guarded by lock),
+	// workersDone is signaled whenever it is decremented.
+	runningWorkers int
+	workersDone    *sync.Cond
+	lock           syncutils.RWMutex
+	logger         log.Logger
 }
 
 type worker struct {
@@ -151,6 +158,8 @@ func (d *OrderedDaemon) runBackgroundWorker(name string, backgroundWorker Worker
 	worker := d.workers[name]
 	shutdownOrderWaitGroup := d.wgPerSameShutdownOrder[worker.shutdownOrder]
 	shutdownOrderWaitGroup.Add(1)
+	// the callers hold the lock
+	d.runningWorkers++
 
 	worker.running.Store(true)
 	go func() {
@@ -278,32 +287,15 @@ func (d *OrderedDaemon) Start() {
 func (d *OrderedDaemon) Run() {
 	d.Start()
 
-	// wait until all wait groups for all shutdown orders are finished
-	for _, wg := range d.waitGroupsForAllShutdownOrders() {
-		if wg == nil {
-			continue
-		}
-		wg.Wait()
+	// wait until no started worker is left, including the workers that were added after the start.
+	// (Waiting on the per-order wait groups here would miss workers added later, and a worker added
+	// while Run waits on the wait group of its order is a misuse of that wait group.)
+	d.lock.Lock()
+	defer d.lock.Unlock()
+
+	for d.runningWorkers > 0 {
+		d.workersDone.Wait()
 	}
-}
-
-// returns all waitgroups of all existing shutdown orders or nil if none.
-func (d *OrderedDaemon) waitGroupsForAllShutdownOrders() []*sync.WaitGroup {
-	d.lock.RLock()
-	defer d.lock.RUnlock()
-
-	if len(d.wgPerSameShutdownOrder) == 0 {
-		return nil
-	}
-
-	waitGroups := make([]*sync.WaitGroup, len(d.wgPerSameShutdownOrder))
-	i := 0
-	for _, wg := range d.wgPerSameShutdownOrder {
-		waitGroups[i] = wg
-		i++
-	}
-
-	return waitGroups
 }
 
 func (d *OrderedDaemon) shutdown() {
@@ -362,6 +354,9 @@ func (d *OrderedDaemon) stopWorkers() {
 func (d *OrderedDaemon) cleanupWorker(name string) {
 	d.lock.Lock()
 	defer d.lock.Unlock()
+
+	d.runningWorkers--
+	d.workersDone.Broadcast()
 
 	if d.IsStopped() {
 		return
